@@ -5,6 +5,7 @@
 -/
 import PtModel.Sexp
 import PtModel.Lower
+import PtModel.Pad
 import PtModel.Spec
 import PtModel.Affine
 import PtModel.Names
@@ -57,6 +58,20 @@ def handleLower : List Sx → Option String
     match Lower.reshape (← parseOrder o) (← old.asNats?) (← new.asNats?) with
     | some e => some e.toSx.toStr
     | none => some "none"
+  | [.atom "pad", .list lens, .list widths, .list cvals] => do
+    -- lens: axis lengths, `?` for a symbolic one; widths: ((before after)…); cvals: ((c0 c1)…)
+    let ls ← lens.mapM fun
+      | .atom "?" => some none
+      | x => x.asNat?.map some
+    let ws ← widths.mapM fun
+      | .list [b, a] => do some (← b.asNat?, ← a.asNat?)
+      | _ => none
+    let cs ← cvals.mapM fun
+      | .list [c0, c1] => do some (← SExpr.ofSx c0, ← SExpr.ofSx c1)
+      | _ => none
+    match Lower.pad ls ws cs with
+    | some e => some e.toSx.toStr
+    | none => some "none"
   | [.atom "bcast", s, r] => do
     some (Sx.list ((Lower.bcastSubscript (← s.asNats?) (← r.asNats?)).map SExpr.toSx)).toStr
   | _ => none
@@ -82,6 +97,14 @@ def handleSpec : List Sx → Option String
     some (showArr (Spec.concatenate (← axis.asNat?) as .undef))
   | [.atom "basic", .list ix, shp, vals] => do
     some (showArr (Spec.basicIndex (← ix.mapM parseBIdx) (← parseArr shp vals)))
+  | [.atom "pad", .list widths, .list cvals, shp, vals] => do
+    let ws ← widths.mapM fun
+      | .list [b, a] => do some (← b.asNat?, ← a.asNat?)
+      | _ => none
+    let cs ← cvals.mapM fun
+      | .list [.atom c0, .atom c1] => do some (← Val.ofWire c0, ← Val.ofWire c1)
+      | _ => none
+    some (showArr (Spec.padConst ws cs (← parseArr shp vals)))
   | [.atom "broadcast", new, shp, vals] => do
     some (showArr (Spec.broadcastTo (← new.asNats?) (← parseArr shp vals)))
   | _ => none
